@@ -77,12 +77,13 @@ def cases(tier, seed):
             ("grid", 3, "farmer"), ("cases", False, "const"),
             ("cases", True, "farmer"), ("cases", 3, "none"),
             ("mix", False, "farmer"), ("mix", True, "none"),
-            ("mix", 3, "const"),
+            ("mix", 3, "const"), ("grid", False, "farmer-override"),
+            ("cases", False, "farmer-override"),
         ]
     else:
         variants = list(itertools.product(
             ("grid", "cases", "mix"), (False, True, 3),
-            ("none", "const", "farmer")))
+            ("none", "const", "farmer", "farmer-override")))
     for n in range(1, nmax + 1):
         reqs = [("batchsize", s) for s in range(1, n + 2)]
         reqs += [("num_batches", k) for k in range(1, n + 3)]
@@ -112,7 +113,10 @@ def check_case(case):
     constants, resources = {}, {}
     if const != "none":
         constants = {"k": 7}
-    if const == "farmer":
+    farmer = const.startswith("farmer")
+    # constants given for this run only override the farmer's stored ones
+    override = {"k": 5} if const == "farmer-override" else None
+    if farmer:
         resources = {"r": 9}
     f = xfn.make_fn(argnames + sorted(constants) + sorted(resources),
                     kind="num", name="f07")
@@ -121,16 +125,17 @@ def check_case(case):
     dcombos = {a: v for a, v in combos} if combos else None
     dcases = [tuple(c) for c in cs] if cs else None
     with xfn.CallLog() as direct:
-        if const == "farmer":
+        if farmer:
             runner = xyz.Runner(f, var_names="out", constants=constants,
                                 resources=resources)
+            okw = {"constants": override} if override else {}
             if kind == "grid":
-                runner.run_combos(dcombos, verbosity=0)
+                runner.run_combos(dcombos, verbosity=0, **okw)
             else:
                 # (run_cases does not parse combos: hand them over parsed)
                 runner.run_cases(dcases, fn_args=fn_args,
                                  combos=tuple(dcombos.items()) if dcombos
-                                 else (), verbosity=0)
+                                 else (), verbosity=0, **okw)
         else:
             if kind == "grid":
                 xyz.combo_runner(f, dcombos, constants=constants, verbosity=0)
@@ -146,9 +151,9 @@ def check_case(case):
     kws = {}
     if mode != "default":
         kws[mode] = req
-    if const == "farmer":
+    if farmer:
         crop = runner.Crop(name="c7", parent_dir=d, **kws)
-        sow_consts = None
+        sow_consts = override
     else:
         crop = xyz.Crop(fn=f, name="c7", parent_dir=d,
                         shuffle=(shuffle if kind == "cases" else False),
